@@ -101,6 +101,51 @@ def model_differs(r, keys, m):
     return None
 
 
+def eval_generic_history(batches, kname, cap, always_spill, tmp):
+    """Items added in batches with a full iteration after each batch: every iteration returns all items added so far,
+    each once, in non-decreasing key order (iterating is not the end of a sorter's life)."""
+    from maflib.sorter import Sorter
+    keyf = KEYFS[kname]
+    where = {"kind": "iterate-then-add", "batches": [[list(x) for x in b] for b in batches], "key": kname, "capacity": cap, "always_spill": always_spill}
+    s = Sorter(cap, JsonCodec(), keyf, tmp_dir=tmp, always_spill=always_spill)
+    fails = []
+    added = []
+    try:
+        for n, b in enumerate(batches):
+            for it in b:
+                s += it
+                added.append(it)
+            got = [tuple(x) for x in s]
+            if sorted(map(repr, got)) != sorted(map(repr, added)):
+                fails.append(dict(where, what="iteration %d (after %d items in all) does not return every added item exactly once (%d returned)" % (n + 1, len(added), len(got))))
+                break
+            keys = [keyf(x) for x in got]
+            if any(keys[i] > keys[i + 1] for i in range(len(keys) - 1)):
+                fails.append(dict(where, what="iteration %d (items added after an earlier iteration) is not in non-decreasing key order: %s" % (n + 1, keys)))
+                break
+    except Exception as e:  # noqa
+        fails.append(dict(where, what="adding after an iteration, or iterating again, failed with %s" % exc_name(e)))
+    finally:
+        try:
+            s.close()
+        except Exception:  # noqa
+            pass
+    return fails
+
+
+def generic_history_cases(ctx, out, tmp):
+    rng = ctx.rng("generic-history")
+    for _ in range(ctx.scale(80, 600)):
+        batches = [gen_items(rng, rng.choice([0, 1, 2, 3, 4])) for _b in range(rng.choice([2, 3]))]
+        n = sum(len(b) for b in batches)
+        cap = rng.choice([1, 2, 3, max(1, n), n + 1, n + 3])
+        out.evaluations += 1
+        out.failures += eval_generic_history(batches, rng.choice(list(KEYFS)), cap, rng.random() < 0.5, tmp)
+        out.distribution["generic: iterate, add more, iterate again"] += 1
+        if n >= 2:
+            out.nontrivial.add(repr(("history", batches, cap)))
+
+
 def generic_cases(ctx, out, tmp):
     rng = ctx.rng("generic")
     reqs = []
@@ -271,6 +316,57 @@ def maf_reused_cases(ctx, out):
         out.failures += fails
         out.distribution["maf:one record object re-used for several adds"] += 1
         out.nontrivial.add(repr(("reused", specs, order, contigs, config, cap)))
+
+
+LAYOUTS = [
+    ["Hugo_Symbol", "Chromosome", "Start_Position", "End_Position", "Tumor_Sample_Barcode", "Matched_Norm_Sample_Barcode", "Reference_Allele", "Tumor_Seq_Allele2"],
+    ["Chromosome", "Hugo_Symbol", "End_Position", "Start_Position", "Matched_Norm_Sample_Barcode", "Tumor_Sample_Barcode"],
+    ["Tumor_Sample_Barcode", "Matched_Norm_Sample_Barcode", "Chromosome", "Start_Position", "End_Position"],
+]
+
+
+def eval_maf_sequence(order, runs):
+    """Several scheme-less MafSorters used one after the other in one process, their records laid out differently
+    (other column order / other columns): each returns exactly what was added to it, sorted."""
+    from maflib.sorter import MafSorter
+    where = {"kind": "sorters-in-sequence", "order": order, "runs": runs}
+    fails = []
+    for k, (layout, cap, specs) in enumerate(runs):
+        try:
+            sorter = MafSorter(order, max_objects_in_ram=cap)
+            recs = [SC.untyped_record(t, nn or "", c, str(s_), str(e_), names=LAYOUTS[layout]) for (t, nn, c, s_, e_) in specs]
+            for r in recs:
+                sorter += r
+            got = list(sorter)
+            sorter.close()
+        except Exception as e:  # noqa
+            fails.append(dict(where, what="the %s scheme-less sorter of the process failed with %s" % (["first", "second", "third"][k], exc_name(e))))
+            break
+        if sorted(str(r) for r in got) != sorted(str(r) for r in recs) or any(list(g.keys()) != LAYOUTS[layout] for g in got):
+            fails.append(dict(where, what="the %s scheme-less sorter of the process does not return the records added to it (text or column names differ)" % ["first", "second", "third"][k]))
+            break
+        locs = [SC.loc_json(r) for r in got]
+        bad = [i for i in range(len(locs) - 1) if expected_cmp(locs[i], locs[i + 1], order, []) > 0]
+        if bad:
+            fails.append(dict(where, what="the %s scheme-less sorter of the process is not in key order" % ["first", "second", "third"][k]))
+            break
+    return fails
+
+
+def maf_sequence_cases(ctx, out):
+    rng = ctx.rng("maf-sequence")
+    for _ in range(ctx.scale(20, 150)):
+        order = rng.choice(["Coordinate", "BarcodesAndCoordinate"])
+        runs = []
+        for _r in range(rng.choice([2, 3])):
+            n = rng.choice([1, 2, 3, 4])
+            specs = [[rng.choice(["T1", "T2"]), rng.choice(["N1", "N2"]), rng.choice(["1", "2", "10", "X"]), rng.choice([5, 9, 10, 100]), 0] for _i in range(n)]
+            specs = [[t, nn, c, s_, s_ + rng.choice([0, 1])] for (t, nn, c, s_, _e) in specs]
+            runs.append([rng.randrange(len(LAYOUTS)), rng.choice([1, 2, n + 1]), specs])
+        out.evaluations += 1
+        out.failures += eval_maf_sequence(order, runs)
+        out.distribution["maf: scheme-less sorters one after the other"] += 1
+        out.nontrivial.add(repr(("sequence", order, runs)))
 
 
 def maf_cases(ctx, out):
@@ -593,9 +689,11 @@ def run(ctx):
                 "constructor, header-record, from_lines, from_defaults, from_reader and reader route")
     with tempfile.TemporaryDirectory() as tmp:
         generic_cases(ctx, out, tmp)
+        generic_history_cases(ctx, out, tmp)
         codec_cases(ctx, out, tmp)
         maf_cases(ctx, out)
         maf_reused_cases(ctx, out)
+        maf_sequence_cases(ctx, out)
         maf_route_cases(ctx, out, tmp)
     return out
 
@@ -629,6 +727,21 @@ def replay_reused(ctx, f):
 
 
 def replay_case(ctx, failure):
+    if failure.get("kind") == "sorters-in-sequence" and "runs" in failure:
+        fails = eval_maf_sequence(failure["order"], failure["runs"])
+        print("replay C07: %d scheme-less MafSorter(%s) used one after the other in this process; (layout, capacity, records) per sorter: %s" % (len(failure["runs"]), failure["order"], failure["runs"]))
+        for x in fails:
+            print("  oracle: %s" % x["what"])
+        return fails
+    if failure.get("kind") == "iterate-then-add" and "batches" in failure:
+        import tempfile as _tf
+        with _tf.TemporaryDirectory() as tmp:
+            fails = eval_generic_history([[tuple(x) for x in b] for b in failure["batches"]], failure["key"], failure["capacity"], failure["always_spill"], tmp)
+        print("replay C07: Sorter(capacity %d, always_spill=%s, key %s); batches %s, the sorter iterated to the end after each batch" % (
+            failure["capacity"], failure["always_spill"], failure["key"], failure["batches"]))
+        for x in fails:
+            print("  oracle: %s" % x["what"])
+        return fails
     if failure.get("kind") == "reused-record" and "specs" in failure:
         return replay_reused(ctx, failure)
     """Re-evaluate the stored failing input on the current implementation; return the list of failure dicts it
